@@ -20,6 +20,8 @@ DECIDED = ('(a) every return of Ombott._handle - including the early 400 for an 
            'file content; filter cache: keyed by rule text at registration) - none keyed by request data.')
 DECIDED_MORE = ('Also: per-request __init__ and the other methods of the long-lived request/response objects add only to containers that __init__ re-creates; no store into a caught response/error object.')
 DECIDED = DECIDED + ' ' + DECIDED_MORE
+DECIDED_R6 = ('Round 6: class-level containers handed out and default-argument objects outlive the request; the applied response jar becomes the live jar only when it holds cookies.')
+DECIDED = DECIDED + ' ' + DECIDED_R6
 NOT_DECIDED = ('equality of each response with the fresh-application response over all histories; liveness counts at run time '
                '(only the structural retention paths above).')
 ASSUMPTIONS = ['request.__init__ / response.__init__ themselves do not raise', 'user handlers are outside the claim']
